@@ -10,7 +10,7 @@ RT = ("Axioms (Reals theorems only): ClassicalDedekindReals.sig_forall_dec, sig_
       "Classical_Prop.classic (via the stdlib's ln). ")
 CHECKS = {
     "C01": dict(
-        technique="Coq proof over Reals about the kernels REGENERATED from the source by the translator (prefix-sum identities, likelihood algebra) + correspondence with exact rational twins evaluated in Coq",
+        technique="Coq proof over Reals about the kernels REGENERATED from the source by the translator (prefix-sum identities, likelihood algebra); Coq/Flocq proof of a rounding-error bound for the prefix-sum squared-error cost and refinement proof that the primitive-float program computes the Flocq model; correspondence with exact rational twins evaluated in Coq and bit-exact comparison of the primitive-float program with the code",
         text="Theorems in coq/Properties/C01.v about the kernels regenerated from /repo on every run, with prefix sums given by the model of col_cumsum(init_zero=True): for every data "
              "list and every 0 <= s < e <= n the squared-error cost equals the residual sum of squares of X[s:e] (optimal) / the sum of squared errors around the fixed mean; the "
              "Gaussian variance cost equals n ln(2 pi max(var, 1e-16)) + n, i.e. twice the negative log-likelihood at the MLE above the floor, and twice the negative log-likelihood at "
@@ -18,12 +18,16 @@ CHECKS = {
              "theorem for p = 1 (partial for p >= 2: NumPy's cov/slogdet/inv are oracles); evaluate returns one row per interval, each depending only on its own interval (batch / "
              "order / earlier-call independence of the row-wise model). Tie: translator on every run; the exact rational twins generated from the same source are evaluated in Coq "
              "on dyadic data, must bracket the real value and equal the direct definition in Q; kernels with log are re-evaluated from the translator's IR; every built-in cost and "
-             "parameter mode is compared with the definition computed from X[s:e]; shapes and batch independence are compared bit for bit; the not-positive-definite error branch is exercised.",
-        note=BASE_TB + RT + "translator/py2coq.py with its role signatures is trusted and validated on every run; binary64 rounding is outside the theorems (conditioned tolerance "
-             "1e-9 (sum|terms|+1)); multivariate p >= 2: linear algebra is modelled as oracles, only differential testing against np.linalg.",
+             "parameter mode is compared with the definition computed from X[s:e]; shapes and batch independence are compared bit for bit; the not-positive-definite error branch is exercised. FLOATING POINT: C01_float_* (Proofs/FloatError.v, FloatKernels2.v; Flocq model "
+             "without overflow / underflow) bound the error of sequential summation, of a difference of rounded prefix sums and of the whole squared-error cost (optimal and fixed mean) by "
+             "(4.2 e + 6) u resp. (2.04 e + 6) u times the natural scale; C01_primitive_float_* (Proofs/FloatRefine.v) prove that the executable primitive-float program with the kernel's operation "
+             "order equals that model whenever a boolean trace checker accepts, hence the value is within the bound of the residual sum of squares; the harness compares that program bit for bit "
+             "with L2Cost.evaluate and evaluates the checker on every case.",
+        note=BASE_TB + RT + "translator/py2coq.py with its role signatures is trusted and validated on every run; binary64 rounding: proved bound for the squared-error cost (Flocq 4.1.0; "
+             "the standard library's FloatAxioms / Uint63 axioms about primitive floats and integers are trusted), conditioned tolerance 1e-9 (sum|terms|+1) for the Gaussian costs; multivariate p >= 2: linear algebra is modelled as oracles, only differential testing against np.linalg.",
         ref="DESIGN.md section 4 / C01"),
     "C06": dict(
-        technique="Coq proof over Reals (cost-difference adapters for any cost; CUSUM^2 = L2 change score; optimal <= fixed; split inequalities via ln u <= u - 1) on regenerated kernels + exact integer adapter correspondence",
+        technique="Coq proof over Reals (cost-difference adapters for any cost; CUSUM^2 = L2 change score; optimal <= fixed; split inequalities via ln u <= u - 1; sub-additivity of savings) on regenerated kernels; Coq/Flocq rounding-error bound and primitive-float refinement for the CUSUM score; exact integer adapter correspondence",
         text="Theorems in coq/Properties/C06.v: for ANY cost function the adapter models give C(s,e) - C(s,k) - C(k,e), C_fixed - C_optimal and C(s,e) - C(a,b) - C(pooled), non-negative "
              "whenever the split inequality / optimal <= fixed holds; for the kernels regenerated from /repo: the squared CUSUM equals the squared-error change score, the L2 saving "
              "equals the saving of the squared-error cost with baseline mean 0, the optimal-parameter cost never exceeds the fixed-parameter cost (L2; Gaussian variance above the "
@@ -49,7 +53,7 @@ CHECKS = {
              "outside the optimality theorem (costs enter as exact values); the binary64 stream ties the loop, not the optimality.",
         ref="DESIGN.md section 4 / C02"),
     "C03": dict(
-        technique="Coq proof (DP invariants with delayed pruning, best-subset exchange lemma; unbounded n, p) + model-vs-code correspondence with a verified checker",
+        technique="Coq proof (DP invariants with delayed pruning, best-subset exchange lemma; unbounded n, p; over Z and over the reals, end-to-end for the built-in L2 saving) + model-vs-code correspondence with a verified checker on integer tables, bit-exact on binary64 savings (generic dynamic programme on primitive floats) and against an exact-rational optimum",
         text="Theorems in coq/Properties/C03.v: for ANY per-column savings that are non-negative and sub-additive, non-negative penalties, 2 <= m <= M, "
              "the model of run_base_capa returns a valid anomaly set maximising the total penalised saving over all valid sets; each prefix score equals the "
              "optimum G(t) w.r.t. the true best-subset penalised saving (Pbest proved = max over non-empty component sets); re-evaluation = final score; "
@@ -61,7 +65,7 @@ CHECKS = {
         note=BASE_TB + RT + "Model/Capa.v is hand-written. The penalty callables/assigned penalties are inputs (C15 covers their formulas). The optimality theorems are closed; the three saving lemmas are over R.",
         ref="DESIGN.md section 4 / C03"),
     "C07": dict(
-        technique="Coq proof (greedy-loop invariants, interval arithmetic; unbounded n) + model-vs-code correspondence with direct spec checkers",
+        technique="Coq proof (greedy-loop invariants, interval arithmetic; unbounded n) + Coq proof that the specification holds for ANY strict weak order on the scores, in particular binary64 without NaN (order embedding into the Z model; PrimFloat.ltb proved a strict weak order) + model-vs-code correspondence with direct spec checkers on integer tables and bit-exact on binary64 tables",
         text="Theorems in coq/Properties/C07.v: candidate intervals inside [0,n] with lengths in [2m, min(max,n)] and non-empty (given the float front-end oracle's "
              "postconditions); per-interval score/maximiser = max/first argmax over admissible splits; every changepoint supported by an above-threshold interval "
              "containing it; no above-threshold interval left without a changepoint; changepoints >= m apart and from the ends; raising the threshold only removes "
@@ -71,7 +75,7 @@ CHECKS = {
              "with the library's NumPy expressions (validated on every configuration, not proved). No axioms; PrimFloat (binary64) in the float-table checker only.",
         ref="DESIGN.md section 4 / C07"),
     "C08": dict(
-        technique="Coq proof (run/peak characterisation by induction over the score list) + model-vs-code correspondence",
+        technique="Coq proof (run/peak characterisation by induction over the score list) + Coq proof that the specification holds for ANY strict weak order on the scores, in particular binary64 without NaN (order embedding into the Z model; PrimFloat.ltb proved a strict weak order) + model-vs-code correspondence on integer tables and bit-exact on binary64 tables",
         text="Theorems in coq/Properties/C08.v: score at t = change score of (t-b, t, t+b) on [b, n-b], 0 elsewhere; `where` = exactly the maximal runs; changepoints = "
              "first maxima of maximal above-threshold runs of length >= min_detection_interval; sorted; in [b, n-b] for thr >= 0; time reversal maps scores at t to n-t; "
              "refutation of the pinned one-short left window. Tie: exact equality of transform_scores / predict with the real MovingWindow on integer change scores and "
@@ -79,7 +83,7 @@ CHECKS = {
         note=BASE_TB + "Model/Mw.v hand-written. No axioms; PrimFloat (binary64) in the float-table checker only. Thresholds >= 0 (a tuned threshold below zero is handled by the code since fix D25a and is exercised by C04 / C14).",
         ref="DESIGN.md section 4 / C08"),
     "C09": dict(
-        technique="Coq proof (greedy-loop invariants, candidate-set characterisation) + model-vs-code correspondence with direct spec checkers",
+        technique="Coq proof (greedy-loop invariants, candidate-set characterisation) + Coq proof that the specification holds for ANY strict weak order on the scores, in particular binary64 without NaN (order embedding into the Z model; PrimFloat.ltb proved a strict weak order) + model-vs-code correspondence with direct spec checkers on integer tables and bit-exact on binary64 tables",
         text="Theorems in coq/Properties/C09.v: inner candidates = exactly the intervals strictly inside with length >= m and >= m surrounding samples; per-interval score = max "
              "over them; anomalies sorted, disjoint, length >= m, strictly inside the data; picks supported / complete / threshold-monotone; totality; m=1 length-2 intervals "
              "have no candidate (pinned crash). Tie: exact equality of predict and the scores table (incl. argmax columns) with the real CircularBinarySegmentation on integer "
@@ -87,7 +91,7 @@ CHECKS = {
         note=BASE_TB + "Model/Cbs.v hand-written; candidate intervals share the SBS float front-end oracle. No axioms; PrimFloat (binary64) in the float-table checker only.",
         ref="DESIGN.md section 4 / C09"),
     "C04": dict(
-        technique="Coq proof (well-formedness corollaries of the search-loop invariants, for arbitrary score functions) + verified checkers applied to the real detectors' outputs",
+        technique="Coq proof (well-formedness corollaries of the search-loop invariants, for arbitrary score functions over Z and -- for PELT, CAPA / MVCAPA and the greedy detectors -- for ANY number type incl. binary64 with NaN) + verified checkers applied to the real detectors' outputs",
         text="Theorems in coq/Properties/C04.v, for ARBITRARY score functions (no split hypothesis): PELT and seeded binary segmentation changepoints are strictly increasing, lie "
              "in [1, n-1], leave every segment incl. the first and last >= min_segment_length; moving-window changepoints are strictly increasing in [bandwidth, n-bandwidth] "
              "(threshold >= 0); CAPA / MVCAPA anomalies are sorted, pairwise disjoint, non-empty, inside [0,n], collective ones of length in [min,max]_segment_length and point ones "
@@ -119,7 +123,7 @@ CHECKS = {
              "permitted (MayRaiseValueError). No axioms.",
         ref="DESIGN.md section 4 / C14"),
     "C15": dict(
-        technique="Coq proof over Reals of the formulas REGENERATED from the source by the translator, Q model of np.quantile with exceedance bound, PELT penalty monotonicity corollary; correspondence on a parameter grid",
+        technique="Coq proof over Reals of the formulas REGENERATED from the source by the translator, Q model of np.quantile with exceedance bound, PELT penalty monotonicity (over Z, over R, and end to end for the squared-error cost); correspondence on a parameter grid",
         text="Theorems in coq/Properties/C15.v about the kernels regenerated from /repo on every run: default penalties/thresholds equal 2 p log n, 2 p sqrt(log n), 2 p log(n L); "
              "CAPA's penalty = scale (k + 2 sqrt(k log n) + 2 log n), proportional to the scale, >= 0; dense = CAPA's penalty for p k parameters with zero betas; sparse = 2 log n + "
              "2 log(k p) per component, times the scale; both non-negative and non-decreasing in the number of components; the combined family is the pointwise minimum of the three "
@@ -193,7 +197,7 @@ CHECKS = {
              "representation's behaviour is tied to the algorithm models by C02-C09. No axioms.",
         ref="DESIGN.md section 4 / C11"),
     "C12": dict(
-        technique="Coq proof (kernel symmetries over Reals on regenerated kernels; exact extensionality / permutation / reversal theorems for every detector model) + metamorphic correspondence runs",
+        technique="Coq proof (kernel symmetries over Reals on regenerated kernels; exact extensionality / permutation / reversal theorems for every detector model; END-TO-END invariance of the outputs of PELT, moving window, seeded and circular binary segmentation over the reals under shift / positive scaling / reversal) + metamorphic correspondence runs",
         text="Theorems in coq/Properties/C12.v. Kernels regenerated from /repo: shift invariance of the optimal-parameter squared-error and Gaussian costs and of CUSUM; Gaussian cost "
              "changes by n ln a^2 under scaling so Gaussian change and local anomaly scores are scale invariant (above the variance floor); time reversal maps cost, saving, CUSUM "
              "and change-score values to those of the mirrored cuts; per-column outputs commute with column permutations and their sum is permutation invariant. Detector models "
@@ -206,7 +210,7 @@ CHECKS = {
              "is outside the theorems (margin rule in the metamorphic run). Multivariate Gaussian symmetries are tested, not proved.",
         ref="DESIGN.md section 4 / C12"),
     "C13": dict(
-        technique="Coq proof (characterisation of the accepted cuts) + exhaustive small-box correspondence against the real evaluate",
+        technique="Coq proof (characterisation of the accepted cuts; machine-integer theorems: wrap-around refutations of the pinned code and exactness after conversion to int64) + exhaustive small-box correspondence against the real evaluate + narrow-dtype stream",
         text="Theorems in coq/Properties/C13.v: the model of evaluate's validation returns scores iff the argument is an integer array of "
              "the expected width whose rows are all spaced, strictly increasing and inside [0,n], and then scores exactly those rows; "
              "non-integer, 3-D and wrong-width arrays are rejected. Tie: for all 17 scorer compositions the real evaluate is run on the "
